@@ -485,9 +485,9 @@ var abases = map[string]func() astate{
 	// one of everything, nothing attached to the waypoint
 	"rich": func() astate { return aWith(nil, richNames...) },
 	// rich, with the namespace, svc-a and se-ext pointing at a waypoint that accepts workloads and services,
-	// and a port-level PeerAuthentication that inherits its mode from the namespace / the mesh
+	// and a port-level PeerAuthentication that inherits its mode from the mesh-wide policy (no namespace-wide one)
 	"waypointed": func() astate {
-		return aWith(map[string]int{"ns-amb": 1, "svc-a": 2, "gw-wp": 1, "se-ext": 2, "pa-sel": 3}, richNames...)
+		return aWith(map[string]int{"ns-amb": 1, "svc-a": 2, "gw-wp": 1, "se-ext": 2, "pa-sel": 3, "pa-ns": -1}, richNames...)
 	},
 }
 
